@@ -8,6 +8,9 @@ C17 driver: one JSON request per line on stdin, one JSON answer per line on stdo
     "outcome":{"chunks":[{"stdout":bool,"bytes":[nat]}],"ending":"success"|"docker_error"|"other_error","atCall":bool,"resultPresent":bool}
   {"op":"run", inputs}            -> {"obs":OBS,"plan":{"ok":CALL}|{"err":class},"kinds":[event kinds],"runnable":bool}
   {"op":"spec", inputs,"obs":OBS} -> {"holds":bool,"failed":[clause names]}
+  {"op":"runseq", inputs,"more":[{"mds":…,"translates":…,"outcome":…}]}
+                                  -> {"obs":[OBS]}   executions on ONE dataset object: the top-level query/outcome first,
+                                     then those of "more" (`observeSeq`); a refused constructor gives one OBS
   {"op":"path","s":str}           -> {"root","parts","name","parent","render"}
   {"op":"table"}                  -> the generated per-backend table
   OBS = {"ctorFailed","err":str|null,"returned":[str],"calls":[CALL],"seenFilelist":str|null,"packageOk","pulled","delivered","runDirLive","leftover"}
@@ -43,6 +46,18 @@ structure Inputs where
   fs : FsFacts
   o : Outcome
 
+def parseStep (j : Json) : Except String (QueryFacts × Outcome) := do
+  let mds ← (← (← j.getObjVal? "mds").getArr?).toList.mapM fun m => do
+    if (← getBool m "docker") then pure (MdEntry.docker (← optStr m "image")) else pure MdEntry.other
+  let q : QueryFacts := { mds, translates := ← getBool j "translates" }
+  let oj ← j.getObjVal? "outcome"
+  let chunks ← (← (← oj.getObjVal? "chunks").getArr?).toList.mapM fun c => do
+    let bs ← (← (← c.getObjVal? "bytes").getArr?).toList.mapM (·.getNat?)
+    pure ({ stdout := ← getBool c "stdout", bytes := bs } : Chunk)
+  let o : Outcome := { chunks, ending := ← parseEnding (← (← oj.getObjVal? "ending").getStr?),
+                       atCall := ← getBool oj "atCall", resultPresent := ← getBool oj "resultPresent" }
+  pure (q, o)
+
 def parseInputs (j : Json) : Except String Inputs := do
   let key ← (← j.getObjVal? "backend").getStr?
   let row ← match backends.find? (·.key == key) with
@@ -50,19 +65,11 @@ def parseInputs (j : Json) : Except String Inputs := do
     | none => throw s!"backend {key} is not in the generated table"
   let files ← strList (← j.getObjVal? "files")
   let a : DatasetArgs := { row, files, image := ← optStr j "image", tag := ← optStr j "tag", outputDir := ← optStr j "outputDir" }
-  let mds ← (← (← j.getObjVal? "mds").getArr?).toList.mapM fun m => do
-    if (← getBool m "docker") then pure (MdEntry.docker (← optStr m "image")) else pure MdEntry.other
-  let q : QueryFacts := { mds, translates := ← getBool j "translates" }
   let f ← j.getObjVal? "fs"
   let fs : FsFacts := { existing := (← strList (← f.getObjVal? "existing")).map parsePath,
                         tempRoot := ← (← f.getObjVal? "tempRoot").getStr?,
                         outDirExists := ← getBool f "outDirExists" }
-  let oj ← j.getObjVal? "outcome"
-  let chunks ← (← (← oj.getObjVal? "chunks").getArr?).toList.mapM fun c => do
-    let bs ← (← (← c.getObjVal? "bytes").getArr?).toList.mapM (·.getNat?)
-    pure ({ stdout := ← getBool c "stdout", bytes := bs } : Chunk)
-  let o : Outcome := { chunks, ending := ← parseEnding (← (← oj.getObjVal? "ending").getStr?),
-                       atCall := ← getBool oj "atCall", resultPresent := ← getBool oj "resultPresent" }
+  let (q, o) ← parseStep j
   pure { a, q, fs, o }
 
 def jstrs (l : List String) : Json := Json.arr (l.map Json.str).toArray
@@ -128,6 +135,11 @@ def handle (line : String) : String :=
           | .error e => Json.mkObj [("err", e.className)]
         pure (Json.mkObj [("obs", obsJson (observe i.a r)), ("plan", pl), ("kinds", jstrs (r.1.map kindOf)),
           ("runnable", decide (Runnable i.a i.q i.fs))])
+      else if op == "runseq" then
+        let i ← parseInputs j
+        let more ← (← (← j.getObjVal? "more").getArr?).toList.mapM parseStep
+        let obs := observeSeq ⟨none⟩ i.a i.fs ((i.q, i.o) :: more)
+        pure (Json.mkObj [("obs", Json.arr (obs.map obsJson).toArray)])
       else if op == "spec" then
         let i ← parseInputs j
         let ob ← parseObs (← j.getObjVal? "obs")
